@@ -290,6 +290,15 @@ bool pv_gen_ambiguous(pv_rng* r, int a, int b, unsigned coin, unsigned enabled, 
 void pv_kdf_mix(const uint8_t* pw, size_t pwlen, const uint8_t* salt, size_t saltlen, uint64_t iterations, uint8_t* key, size_t keylen);
 
 
+/* link-time libc interposition (pv_wrap.c; only in the *-wrap flavours) */
+enum { PV_WRAP_MALLOC, PV_WRAP_FREE, PV_WRAP_CALLOC, PV_WRAP_REALLOC, PV_WRAP_TIME, PV_WRAP_CLOCK_GETTIME, PV_WRAP_GETTIMEOFDAY, PV_WRAP_GETRANDOM,
+       PV_WRAP_GETENTROPY, PV_WRAP_RAND, PV_WRAP_RANDOM, PV_WRAP_OPEN, PV_WRAP_FOPEN, PV_WRAP_CLOCK, PV_WRAP_N };
+extern uint64_t pv_wrap_count[PV_WRAP_N];
+extern int pv_wrap_time_scripted;
+#include <time.h>
+extern time_t pv_wrap_time_value;
+const char* pv_wrap_name(int i);
+
 /* grammar-based strings (pv_gen.c) */
 typedef struct pv_gstr { char* s; size_t len; const char* cls; int lang; unsigned coin; pv_mseed seed; } pv_gstr;
 void pv_gen_string(pv_rng* r, unsigned enabled, pv_gstr* out);
